@@ -1,7 +1,9 @@
 package checks
 
 import (
+	"bytes"
 	"fmt"
+	"os"
 	"strings"
 	"testing"
 
@@ -10,6 +12,7 @@ import (
 
 const c05Rule = "2-4 tasks x 1-4 operations (Put, identical re-Put, Get, Has, GetSize, Remove, optionally one Flush task) over a key pool concentrated in 1-2 buckets, after a generated sequential prefix; the cooperative scheduler parks tasks at the named points between the sub-steps of Put/Remove/Get/Has/GetSize/Flush (index lookup, primary check, primary put, index put/update, freelist put, pool swap, log write, bucket-table update) and follows a generated schedule (single long preemption at a drawn point, PCT-style, random walk); a free-running variant (real goroutines, 1 ms periodic flusher) runs the same generator for volume. Sub-campaign (a): single writer per key (writers of different keys of one bucket overlap freely); (b): unrestricted. " +
 	"oracle = every call returns without error (key-exists in immutable mode excepted) + porcupine linearizability check against a per-key register with presence, seeded with the prefix contents, with a final sequential read of every key appended (real-time order from logical call/return stamps); " +
+	stressRuleText + " (here: collectors off); " +
 	"non-trivial = >=2 operations of different tasks overlapping in logical time on keys of one bucket, at least one of them a Put/Remove, with >=1 preemption inside an operation; distinct = distinct canonical JSON of the case"
 
 var c05Points = []string{"index.get.unlocked", "put.indexGot", "put.primaryChecked", "put.primaryPut", "put.indexUpdated", "put.indexed",
@@ -100,7 +103,7 @@ func concClasses(c ConcCase, st concStats) []string {
 	return cl
 }
 
-func runConcProperty(t *testing.T, ev *Evidence, gen func(*rapid.T, bool) ConcCase, nt func(ConcCase, concStats) bool, quickSched, thoroughSched, quickFree, thoroughFree int) {
+func runConcProperty(t *testing.T, ev *Evidence, gen func(*rapid.T, bool) ConcCase, nt func(ConcCase, concStats) bool, quickSched, thoroughSched, quickFree, thoroughFree int, volumeModes []int, quickVolume, thoroughVolume int) {
 	judge := func(v *Violation) *Violation {
 		if v != nil && strings.HasPrefix(v.Signature, "foreign-prefix-failure") {
 			ev.Class("foreign-prefix-failure", 1)
@@ -109,6 +112,18 @@ func runConcProperty(t *testing.T, ev *Evidence, gen func(*rapid.T, bool) ConcCa
 		return v
 	}
 	if envReplay != "" {
+		if raw := readReplayRaw(envReplay); bytes.Contains(raw.Case, []byte(`"workers"`)) {
+			var sc StressCase
+			readReplay(envReplay, &sc)
+			for i := 0; i < 40; i++ {
+				st, v := runStress(sc, false)
+				ev.Record(sc, true, stressClasses(sc, st)...)
+				if v != nil && ev.Report(v, sc) {
+					t.Fatalf("replay: %v", v)
+				}
+			}
+			return
+		}
 		var c ConcCase
 		readReplay(envReplay, &c)
 		n := 20
@@ -125,6 +140,9 @@ func runConcProperty(t *testing.T, ev *Evidence, gen func(*rapid.T, bool) ConcCa
 		return
 	}
 	for _, f := range regressFiles(ev.Property) {
+		if raw := readReplayRaw(f); bytes.Contains(raw.Case, []byte(`"workers"`)) {
+			continue
+		}
 		var c ConcCase
 		readReplay(f, &c)
 		for i := 0; i < 5; i++ {
@@ -137,6 +155,9 @@ func runConcProperty(t *testing.T, ev *Evidence, gen func(*rapid.T, bool) ConcCa
 	}
 	for _, free := range []bool{false, true} {
 		free := free
+		if os.Getenv("VERIF_FOCUS") == "volume" { // development aid: only the volume sub-campaign
+			break
+		}
 		if free {
 			setRapidChecks(budget(quickFree, thoroughFree))
 		} else {
@@ -155,6 +176,9 @@ func runConcProperty(t *testing.T, ev *Evidence, gen func(*rapid.T, bool) ConcCa
 			}
 		})
 	}
+	if !t.Failed() && len(volumeModes) > 0 {
+		runStressCampaign(t, ev, volumeModes, budget(quickVolume, thoroughVolume), false)
+	}
 	ev.finish(t)
 }
 
@@ -163,5 +187,5 @@ func TestC05(t *testing.T) {
 	defer ev.Write()
 	runConcProperty(t, ev, genC05, func(c ConcCase, st concStats) bool {
 		return st.overlapSameBucket && (c.Free || st.preempt > 0)
-	}, 10000, 12000, 6000, 12000)
+	}, 10000, 12000, 6000, 12000, []int{stressFlush}, 4000, 8000)
 }
